@@ -55,6 +55,8 @@ pub struct C06;
 
 /// A step that re-entered the VM may run this many instructions before it counts as unbounded.
 pub const REENTRY_STEP_BOUND: u64 = 200_000;
+/// Live heap bytes one in-process scenario may hold before the simulated host walks away.
+pub const SCENARIO_MEMORY_BUDGET: i64 = 2 << 30;
 
 pub fn loop_templates() -> Vec<(&'static str, String)> {
     let mut v: Vec<(&'static str, String)> = Vec::new();
@@ -205,9 +207,16 @@ impl Check for C06 {
         let mut run = Run::new(spec);
         let mut stopped_by: Option<&str> = None;
         let mut max_depth = 0usize;
+        let mem0 = crate::memcount::live_bytes();
         loop {
             if run.out.steps >= scn.step_budget {
                 stopped_by = Some("step-budget");
+                break;
+            }
+            // memory budget (this thread's own live bytes: a deterministic function of the
+            // scenario): a host that meters memory walks away like one that meters steps
+            if run.out.steps % 512 == 0 && crate::memcount::live_bytes() - mem0 > SCENARIO_MEMORY_BUDGET {
+                stopped_by = Some("memory-budget");
                 break;
             }
             let d = h.interp.call_depth();
@@ -224,11 +233,15 @@ impl Check for C06 {
         }
         run.finalize(&mut h);
         let o = &run.out;
+        if std::env::var_os("TSIM_C06_DEBUG").is_some() {
+            eprintln!("c06: stopped_by={:?} steps={} max_depth={} live_delta={} result={}", stopped_by, o.steps, max_depth, crate::memcount::live_bytes() - mem0, o.result.chars().take(80).collect::<String>());
+        }
         rep.sim_instructions = tsrun::verif::instructions();
         rep.bump("steps", o.steps);
         rep.bump("steps_with_native_reentry", o.steps_with_reentry);
         rep.bump("stopped_by_step_budget", (stopped_by == Some("step-budget")) as u64);
         rep.bump("stopped_by_depth_limit", (stopped_by == Some("depth-limit")) as u64);
+        rep.bump("stopped_by_memory_budget", (stopped_by == Some("memory-budget")) as u64);
         rep.bump("probe_call_depth_over_1000", (max_depth > 1000) as u64);
         if o.max_step_instr_no_reentry > 1 {
             rep.fail(Failure::new(
